@@ -48,6 +48,10 @@ FN_DIMS = {
 }
 DIM_ORDER = ["above", "below", "vis", "qual", "generics", "params", "ret", "body"]
 
+IMPL_ATTRS = {
+    "doc": ["/// block doc"], "automock": ["#[verif_helper::automock]"], "asynctrait": ["#[::async_trait::async_trait]"],
+    "mix": ["#[verif_helper::id]", "#[::async_trait::async_trait]", "#[verif_helper::automock]", "#[cfg(all())]"],
+}
 IMPL_ITEMS = {
     "fn": "fn i{n}(deps: &impl ::core::any::Any) -> u32 {{ {n} }}",
     "pubfn": "pub fn i{n}(deps: &impl ::core::any::Any) -> u32 {{ {n} }}",
@@ -81,6 +85,9 @@ def fn_states(maxdev):
 def mod_states(maxlen):
     words, transitions = common.words(gen.MOD_ITEM_ORDER, maxlen)
     states = [dict(key="mod_" + ("_".join(w) or "empty"), mode="mod", items=list(w)) for w in words]
+    for w in words:
+        if len(w) <= 1:
+            states.append(dict(key="modinner_" + ("_".join(w) or "empty"), mode="mod", items=list(w), inner=True, may_be_rejected=True))
     return states, transitions
 
 
@@ -90,6 +97,10 @@ def impl_states(maxlen):
     for w in words:
         for kind in ("static", "ref"):
             states.append(dict(key="impl_%s_%s" % (kind, "_".join(w) or "empty"), mode="impl", items=list(w), kind=kind))
+            if len(w) <= 1:
+                # attributes below entrait on the block: everything except async_trait stays on the inherent impl
+                for av in IMPL_ATTRS:
+                    states.append(dict(key="impl_%s_%s_at%s" % (kind, "_".join(w) or "empty", av), mode="impl", items=list(w), kind=kind, attrs=av))
     return states, transitions * 2
 
 
@@ -143,6 +154,9 @@ def render(s):
         L.append("    #[::entrait::entrait(pub Tr)]")
         L.append("    #[allow(unused)]")
         L.append("    pub mod m {")
+        if s.get("inner"):
+            L.append("    #![allow(dead_code)]")
+            L.append("    //! inner module doc")
         for n, sym in enumerate(s["items"], 1):
             L.append("    " + gen.mod_item_src(sym, n, key))
         L.append("    }")
@@ -150,6 +164,7 @@ def render(s):
         L.append("    pub struct X;")
         L.append("    #[::entrait::entrait(%s)]" % ("ref" if s["kind"] == "ref" else ""))
         L.append("    #[allow(unused)]")
+        L += ["    " + a for a in IMPL_ATTRS.get(s.get("attrs"), [])]
         L.append("    impl TrImpl for X {")
         for n, sym in enumerate(s["items"], 1):
             L.append("        " + IMPL_ITEMS[sym].format(n=n))
@@ -268,6 +283,10 @@ def check_state(s, res, parsed):
     if "panic" in r:
         return [("macro-panic", r["panic"])]
     it, ot = r["input_tt"], r["output_tt"]
+    if "compile_error" in engine.tt_flat_idents(ot[:8]):
+        if s.get("may_be_rejected"):
+            return []          # the macro does not accept this input: nothing is emitted, nothing can be altered
+        return [("accepted-input-rejected", r.get("output", "")[:200])]
     if s["mode"] == "stamped":
         # every token of the input - invisible groups included - must reappear: fn -> prefix; mod/impl -> body prefix / equal
         kind = {"mod_const": "mod", "impl_const": "impl", "fn_body": "fn"}[s["which"]]
@@ -320,7 +339,8 @@ def check_state(s, res, parsed):
         return [("impl-items-changed", "input  ... %s\noutput ... %s" % (describe(a, i), describe(b, i)))]
     head_in = engine.tt_str(it[:gi])
     head_out = engine.tt_str(ot[:go])
-    want = head_in.replace("TrImpl for ", "")
+    # (async_trait is the one attribute that moves to the generated trait impl instead)
+    want = head_in.replace("TrImpl for ", "").replace("# [ :: async_trait :: async_trait ] ", "")
     if head_out != want:
         return [("impl-header-changed", "%r vs expected %r" % (head_out, want))]
     after = parsed.get("after")
@@ -405,7 +425,7 @@ def run(report, tier):
     states, transitions, bound = enumerate_states(tier)
     report.space(len(states), transitions, bound,
                  "fn: default fn + bounded deviations over dims %s; mod: item words over %d symbols; impl: item words over %d "
-                 "symbols x {static, ref}; non-trivial = differs from the default / has items" % (DIM_ORDER, len(gen.MOD_ITEM_ORDER), len(IMPL_ITEMS)))
+                 "symbols x {static, ref} (+ attribute sets below entrait); non-trivial = differs from the default / has items" % (DIM_ORDER, len(gen.MOD_ITEM_ORDER), len(IMPL_ITEMS)))
     report.assumptions += ["token trees as presented by the proc_macro API (recorder hook)",
                            "punctuation spacing outside brace groups is not compared (syn reprints signatures)"]
     evaluate(states, report, tier)
